@@ -3,7 +3,7 @@ from props import S
 CFG = {
     "properties_file": "Properties/C19.v",
     "corr_files": ["Corr/RateLimitCorr.v", "Corr/C19.v"],
-    "streams": [S("C19", "drive_ratelimit", 240, 10000), S("C19ns", "drive_ratelimit", 120, 5000)],
+    "streams": [S("C19", "drive_ratelimit", 200, 10000), S("C19ns", "drive_ratelimit", 100, 5000)],
     "rule": "a RateLimiter (global {1,3,5,10,1000}/s, per-IP {1,3,10}/s burst {1,2,5}, per-connection off or {1,3,1000}/s) "
             "receives interleaved AllowRequest calls of 0-2 abusive clients (volleys of 1-6 calls at one instant, far above their "
             "own limits) and 1-3 compliant clients (paced by a shadow bucket so that they stay within their own limits), 20-90 "
